@@ -19,6 +19,7 @@ EXPLANATION = ('GUARD: a pending re-init blocks building and processing commits;
                'non-application resumption PSK first is rejected. SHAPE-INDEPENDENCE: the membership comparison depends only on '
                'identities / member counts: no call reachable from it reads the length of the node vector or a leaf count of the '
                'tree. Acceptance for every member set (value level) is not decided.')
+EXPLANATION += ' FAIL-ATOMIC (restricted): the re-init marker is recorded only by a commit accepted as a whole.'
 ASSUMPTIONS = ['the identity provider decides identity equality']
 
 GEOMETRY = re.compile(r'(TreeKemPublic::(total_leaf_count|occupied_leaf_count)|NodeVec::(total_leaf_count|len|next_empty_leaf)|'
